@@ -384,7 +384,8 @@ def depth_probe(ctx, label, fn, good, frees=None, cls="near_recursion_limit", ti
     if _DEPTH["runaway"]:
         ctx.count(cls + ".skipped_after_runaway")
         return
-    frees = list(frees if frees is not None else range(4, 640, 7))
+    # (every depth for the first 48 frames - the window between "the outer call fits" and "its callees fit" can be a few frames - then every 7th)
+    frees = list(frees if frees is not None else list(range(2, 48)) + list(range(48, 640, 7)))
     out = []
 
     def work():
